@@ -25,7 +25,7 @@ TURN_CFGS = {
         ("idle", dict(Transports='{"udp"}', Lifetimes="{10}", MaxRefresh=0, MaxDrops=0,
                       Reacts='{"ok", "e401"}', RefreshFaults=0), None),
         ("sim", dict(Transports='{"udp", "tcp"}', Lifetimes="{600}", MaxRefresh=3, MaxDrops=1,
-                     Reacts='{"ok", "e401", "e438", "e438r", "err", "drop", "badtx"}', RefreshFaults=3), (40, 8)),
+                     Reacts='{"ok", "e401", "e401r", "e438", "e438r", "err", "drop", "badtx"}', RefreshFaults=3), (40, 8)),
     ],
     "thorough": [
         ("core", dict(Transports='{"udp", "tcp"}', Lifetimes="{600}", MaxRefresh=1, MaxDrops=0,
@@ -65,9 +65,10 @@ CONSTANTS
   MaxRefresh = {c['MaxRefresh']}
   MaxDrops = {c['MaxDrops']}
   Reacts = {c['Reacts']}
+  AllocLen = {c.get('AllocLen', 3)}
   RefreshFaults = {c['RefreshFaults']}
   Deviations = {deviations}
-INVARIANTS BoundedRetries FreshNonce PermissionFirst {'EmitRun' if emit else ''}
+INVARIANTS BoundedRetries FreshNonce PermissionFirst KeyMatchesRealm {'EmitRun' if emit else ''}
 CHECK_DEADLOCK FALSE
 """)
 
@@ -181,10 +182,11 @@ def run(tier):
 
 def selftest():
     ok = True
-    for dev, inv in (("RetryForever", "BoundedRetries"), ("StaleNonceReuse", "FreshNonce"), ("DataBeforePermission", "PermissionFirst")):
+    for dev, inv in (("RetryForever", "BoundedRetries"), ("StaleNonceReuse", "FreshNonce"), ("DataBeforePermission", "PermissionFirst"),
+                     ("StaleKeyOnRealmChange", "KeyMatchesRealm")):
         cfg = os.path.join(vlib.SPEC, "MC_Turn_selftest.gen.cfg")
-        write_turn_cfg(cfg, dict(TURN_CFGS["quick"][0][1], Reacts='{"ok", "e401", "e438", "err", "badtx"}'), emit=False,
-                       deviations='{"%s"}' % dev)
+        write_turn_cfg(cfg, dict(TURN_CFGS["quick"][0][1], Reacts='{"ok", "e401", "e438", "e438r", "err", "badtx"}', AllocLen=2),
+                       emit=False, deviations='{"%s"}' % dev)
         res = vlib.tlc("MC_Turn", os.path.basename(cfg), timeout=600, tag="MC_Turn_selftest")
         os.remove(cfg)
         hit = any(inv in e for e in res["errors"]) or any(inv in l for l in res["raw_tail"])
